@@ -24,7 +24,8 @@ CHECKS = {
                      'the property\'s documented refusals and enforces the 10 s budget in CPU time (confirmed in a fresh process). Reach comes '
                      'from ~220k (quick) / ~4.4M (thorough) executions over the spec corpus, mutations, random soups, generated documents, '
                      '~100 pathological shapes up to 4 KB, deterministic families (odd white space in every structural position, format-template and URL '
-                     'payloads in every payload position) and ALL strings over two 24-symbol alphabets up to length 3/4.',
+                     'payloads in every payload position), ALL strings over two 24-symbol alphabets up to length 3/4, and two-call sequences in which '
+                     'the first call ends in an admitted refusal and the second (every renderer, one-call API, no reset in between) must not raise.',
                 note='Held on the executions observed; nothing is claimed for inputs the workloads do not reach. Recursion errors are admitted '
                      'only when a conservative syntactic depth bound exceeds 100.'),
     'C06': dict(category='exploration', design_ref='DESIGN.md section 5, C06',
@@ -63,7 +64,8 @@ CHECKS = {
     'C15': dict(category='exploration', design_ref='DESIGN.md section 5, C15',
                 technique='relational monitor over supply forms, including the real CLI in subprocesses with ResourceWarning as error',
                 text='The output of markdown(str) is compared with list / iterator / StringIO / real file object / final-newline variants and with '
-                     '`python -m mistletoe -r R file...` (one and several files, repeated names) for five renderers.',
+                     '`python -m mistletoe -r R file...` (one and several files, repeated names) for five renderers; for texts whose meaning depends '
+                     'on the definitions of their file, several files in one invocation are compared with single-file runs in processes of their own.',
                 note='Inputs are restricted to \\n line ends (the property\'s domain). Held on the executions observed.'),
     'C18': dict(category='exploration', design_ref='DESIGN.md section 5, C18',
                 technique='differential monitor: contrib renderer output vs HtmlRenderer output on extension-free documents',
@@ -76,7 +78,8 @@ CHECKS = {
                      'raise in find / constructor / start / read, at every list position, at top level / in a quote / in a list item, with the '
                      'exception propagating out of the context or caught inside it). Every render/parse step is a probe whose result must equal '
                      'the value computed by one fresh interpreter per (document, renderer, options); token lists are checked after every context '
-                     'exit. All single steps, all histories of length <= 3 over a 41-step alphabet and the full fault x probe matrix are '
+                     'exit; one renderer INSTANCE entered twice (nothing / another session / a raising parse in between) and one instance reused '
+                     'after a rendering that raised are steps too. All single steps, all histories of length <= 3 over a 41-step alphabet and the full fault x probe matrix are '
                      'enumerated, random histories (3-6 and 200 steps) extend the reach.',
                 note='Probe documents are chosen so that each piece of class-level scratch state and each memoisable helper is consumed in two '
                      'different contexts. Nested renderer contexts and faults inside render functions are outside the statement.'),
@@ -112,7 +115,9 @@ CHECKS = {
                 technique='reference-model monitor: the generator records the source line of every block it writes; token line_number attributes are compared',
                 text='For generated documents whose token structure equals the generated tree, every block token at any depth (13 classes incl. '
                      'table rows/cells and the header row) must report the line on which the generator wrote its first character; special shapes '
-                     '(containers beginning with a blank line, lazy lines, definitions between blocks, leading blank lines) are required to occur.',
+                     '(containers beginning with a blank line, lazy lines, definitions between blocks, leading blank lines) are required to occur. '
+                     'Relational form without an expected tree (every third generated document, the 652 spec examples, a hand-written family of '
+                     'look-ahead readers in containers): the same text twice in one document - the second copy reports the single parse\'s lines plus the distance.',
                 note='Documents whose structure differs are skipped and counted (that is C03\'s verdict).'),
     'C17': dict(category='exploration', design_ref='DESIGN.md section 5, C17',
                 technique='taint + structure monitor on the LaTeX output: sentinels round every text-carrying token attribute, strict scan of groups, environments, control words, verbatim terminators and URL arguments',
@@ -129,7 +134,8 @@ CHECKS = {
                 technique='relational monitor over recorded executions: x -> MD(x) -> MD(MD(x)), meaning compared through the HTML renderer and the definition table',
                 text='For all 652 spec examples and generated documents (canonical and non-canonical spellings; one third in the renderer\'s own '
                      'normal form), under normalize_whitespace False and True: the round-tripped text must render to identical HTML with an '
-                     'identical definition table, a second round trip must be byte-identical, and normal-form input must be reproduced byte for byte.',
+                     'identical definition table, a second round trip must be byte-identical, and normal-form input must be reproduced byte for byte. '
+                     'Deterministic families: underline-like content lines; blank lines made of white space other than space / tab between every pair of block kinds.',
                 note='The property\'s excluded input classes and three further mechanisms are known findings listed per spec example; the '
                      'generated domain leaves their shapes out (generator switches) so that any other difference is reported.'),
     'C10': dict(category='exploration', design_ref='DESIGN.md section 5, C10',
